@@ -383,7 +383,7 @@ def run(chk):
         'ocaml/driver_c01.ml, harness/c01_engines.c (parse + run + print), tools/gen_c01_prog.py',
         'coq/Mir/Opcode.v tied to mir.h by tools/tr_opcodes.py (checked every run)',
         'NOT proved: CFG/SSA/GVN structure, copy-prop, DSE, DCE, LICM, RA, combine, x86 encoder (differential run only)']
-    n = 500 if quick else 2500
+    n = 800 if quick else 3000
     run_corpus(chk, impl, model, 'c01', ENGINES)
     run_known(chk, impl, model, 'c01', ENGINES)
     progs = gen_programs(chk, 'c01', n)
